@@ -22,9 +22,25 @@ Names == << Name(FALSE, <<"a">>), Name(TRUE, <<"a">>), Name(FALSE, <<"d", "a">>)
 RootLocs == << <<"r">>, <<"d", "r">> >>
 
 VARIABLES loaders, root, go
+\* (NestedKind = "child") a child template whose block refers to another template by a relative name: child and parent in
+\* the same or in different directories; the reference is one of the child's, wherever the block is rendered
+BaseLocs == << <<"base">>, <<"d", "base">> >>
+ChildKinds == <<"include", "include_if", "ssi", "ssi_parsed", "import">>
+ChildInit ==
+  \E k \in 1..Len(ChildKinds), m1 \in Layouts, m2 \in Layouts, rl \in 1..2, bl \in 1..2, rootIn \in {1, 2}, mid \in BOOLEAN :
+     LET baseFile == (BaseLocs[bl] :> <<Text("P["), Block(<<Text("pb")>>), Text("]")>>) IN
+     LET ref == Ref(ChildKinds[k], Name(FALSE, <<"c">>)) IN
+     LET blk == Block(<<Text("cb("), ref, Text(")")>>) IN
+     \* with `mid`: root extends a middle template (in the other directory) that extends the base and has no block of its own
+     LET midLoc == IF rl = 1 THEN <<"d", "mid">> ELSE <<"mid">> IN
+     LET midFile == IF mid THEN (midLoc :> <<Ref("extends", Name(TRUE, BaseLocs[bl])), Text("ignored")>>) ELSE <<>> IN
+     LET rootFile == (RootLocs[rl] :> <<Ref("extends", Name(TRUE, IF mid THEN midLoc ELSE BaseLocs[bl])), Text("junk"), blk>>) IN
+     /\ loaders = << Loader(1, m1, (IF rootIn = 1 THEN rootFile ELSE <<>>) @@ baseFile @@ midFile), Loader(2, m2, IF rootIn = 2 THEN rootFile ELSE <<>>) >>
+     /\ root = Name(TRUE, RootLocs[rl])
 Init ==
   /\ go = FALSE
-  /\ \E k \in 1..Len(Kinds), n \in 1..Len(Names), m1 \in Layouts, m2 \in Layouts, rl \in 1..2, rootIn \in {1, 2}, two \in BOOLEAN :
+  /\ IF NestedKind = "child" THEN ChildInit ELSE
+     \E k \in 1..Len(Kinds), n \in 1..Len(Names), m1 \in Layouts, m2 \in Layouts, rl \in 1..2, rootIn \in {1, 2}, two \in BOOLEAN :
        /\ (Kinds[k] \in {"lazy", "lazy_if"} => Names[n].rooted)        \* computed names: rooted only
        /\ LET items == IF Kinds[k] = "extends" THEN <<Ref("extends", Names[n]), Text("junk")>>
                        ELSE <<Text("R["), Ref(Kinds[k], Names[n])>> \o
